@@ -47,6 +47,10 @@ def obligations(tier):
     # a member swapped for one of the same name that reads another input (remove_indicator + add_indicator)
     for name, kw, n in (("MACD", dict(fast_period=2, slow_period=3, signal_period=2), 7), ("ROC", dict(period=2), 5), ("TSI", dict(period=2, smooth_period=2), 6)):
         obs.append(Ob(f"swap-input/{name}{kw}/close->open/n={n}", dict(spec=["ind", name, kw], n=n, input="open"), NL, fn="run_swap", weight=n * 3, budget_s=300))
+    # an older candle recomputed through calculate_index between the batch part and the live part of the stream
+    for name, kw, n, k in (("RSI", dict(period=2), 5, 4), ("VWAP", dict(), 6, 4), ("STOCH", dict(period=2, slow_period=2, smoothing_k=2), 8, 6), ("TSI", dict(period=2, smooth_period=2), 8, 6),
+                           ("MACD", dict(fast_period=2, slow_period=3, signal_period=2), 8, 6), ("OBV", dict(), 6, 4)):
+        obs.append(Ob(f"calculate_index(older) then appends/{name}{kw}/n={n}", dict(spec=["ind", name, kw], n=n, k=k, feed="cidx-then-append", posvol=(name == "VWAP")), NL, weight=n * 5, budget_s=300, max_paths=100000))
     # a fast and a slow instance of one class side by side in a Hexital: each follows its own definition
     for name, kw, sib, n in (("STOCH", dict(period=3, slow_period=2, smoothing_k=2), dict(period=2, slow_period=2, smoothing_k=2), 7), ("STOCH", dict(period=2, slow_period=2, smoothing_k=2), dict(period=2, slow_period=3, smoothing_k=1), 6),
                              ("RSI", dict(period=3), dict(period=2), 5), ("MACD", dict(fast_period=2, slow_period=3, signal_period=2), dict(fast_period=2, slow_period=4, signal_period=2), 7),
